@@ -503,9 +503,65 @@ func init() {
 		return IfaceV{}
 	})
 	// ---- context: deadlines and cancellation are not modelled (ctx.Err() stays nil unless the harness supplies its own context)
+	// context.WithCancel/WithTimeout/WithDeadline: a derived context whose Err()/Done() reflect an explicit cancel()
+	// (deadlines never fire: time is not modelled) and an already cancelled parent at creation time.
 	ctxWith := func(c *Ctx, fn *ssa.Function, a []Value) Value {
-		cancel := &ClosureV{native: func(c *Ctx, args []Value) Value { return nil }}
-		return TupleV{a[0], cancel}
+		parent := a[0].(IfaceV)
+		cancelled := false
+		expired := false
+		c.nextObj++
+		done := &ChanV{id: c.nextObj}
+		if fn.Name() != "WithCancel" {
+			// a deadline fires only when the goroutine has nothing left to do but wait for it
+			done.onBlock = func() {
+				if !cancelled {
+					cancelled, expired = true, true
+					done.closed = true
+				}
+			}
+		}
+		canceledErr := func() Value {
+			pkg := c.shared.prog.ImportedPackage("context")
+			if pkg == nil {
+				return c.newErr("context canceled")
+			}
+			name := "Canceled"
+			if expired {
+				name = "DeadlineExceeded"
+			}
+			g := pkg.Var(name)
+			return c.load(PtrV{obj: c.globalObj(g)})
+		}
+		var obj *NativeObj
+		obj = &NativeObj{name: "context.cancelCtx(model)", methods: map[string]func(c *Ctx, args []Value) Value{
+			"Err": func(c *Ctx, args []Value) Value {
+				if cancelled {
+					return canceledErr()
+				}
+				if parent.t != nil {
+					return c.invokeByName(parent, "Err", nil)
+				}
+				return IfaceV{}
+			},
+			"Done": func(c *Ctx, args []Value) Value { return done },
+			"Deadline": func(c *Ctx, args []Value) Value {
+				return TupleV{c.zero(fn.Signature.Params().At(0).Type().Underlying().(*types.Interface).Method(0).Type().(*types.Signature).Results().At(0).Type()), c.tb.ff}
+			},
+			"Value": func(c *Ctx, args []Value) Value {
+				if parent.t != nil {
+					return c.invokeByName(parent, "Value", args)
+				}
+				return IfaceV{}
+			},
+		}}
+		cancel := &ClosureV{native: func(c *Ctx, args []Value) Value {
+			if !cancelled {
+				cancelled = true
+				done.closed = true
+			}
+			return nil
+		}}
+		return TupleV{IfaceV{t: c.shared.errType, v: obj}, cancel}
 	}
 	reg("context.WithTimeout context.WithCancel context.WithDeadline", ctxWith)
 	reg("context.WithoutCancel", func(c *Ctx, fn *ssa.Function, a []Value) Value { return a[0] })
@@ -591,4 +647,20 @@ func (c *Ctx) nativeOf(v Value) (any, bool) {
 		return x.f, true
 	}
 	return nil, false
+}
+
+// invokeByName calls a method of an interface value by name (used by engine-provided wrappers).
+func (c *Ctx) invokeByName(iv IfaceV, name string, args []Value) Value {
+	if no, ok := iv.v.(*NativeObj); ok {
+		return no.call(c, name, args)
+	}
+	ms := c.shared.prog.MethodSets.MethodSet(iv.t)
+	for i := 0; i < ms.Len(); i++ {
+		if ms.At(i).Obj().Name() == name {
+			fn := c.shared.prog.MethodValue(ms.At(i))
+			return c.callFn(fn, append([]Value{iv.v}, args...), nil)
+		}
+	}
+	c.unsupported("method " + name + " not found on " + iv.t.String())
+	return nil
 }
